@@ -153,9 +153,11 @@ function parseBodyV0_1(header, buffer, version) {
                     const offset = i * (info._people * _points) + j * _points;
                     const place = offset + k + l;
                     const point = {"C": confidence.data[place]};
-                    [...component.format].forEach((dim, dimIndex) => {
+                    let dimIndex = 0;  // index among the coordinate letters: "C" has its own block and takes no slot
+                    [...component.format].forEach(dim => {
                         if (dim !== "C") {
                             point[dim] = data.data[place * _dims + dimIndex];
+                            dimIndex++;
                         }
                     });
                     person[component.name].push(point)
